@@ -175,21 +175,17 @@ Definition emit_res (t : tplan) : res := {| r_ret := ROk; r_plan := Some t; r_af
 
 Definition is_reset (c : call) : bool := match c with CReset _ => true | _ => false end.
 
-(* after a successful Plan(): every call fails with a use-after-emit error of its own; a mutator records
-   it as the sticky error, Plan() does not *)
-Fixpoint done_results (last : option error) (i : nat) (l : list call) : list res :=
-  match l with
-  | [] => []
-  | CPlan :: r => {| r_ret := RErr (EUseAfterEmit, i); r_plan := None; r_after := last |} :: done_results last (S i) r
-  | _ :: r => stuck_res (EUseAfterEmit, i) :: done_results (Some (EUseAfterEmit, i)) (S i) r
-  end.
+(* after a successful Plan(): the first call, whatever it is, is a misuse (use after emit); its error is
+   recorded and it is what that call and every later call, Plan() included, return - until Reset *)
+Definition done_results (i : nat) (l : list call) : list res :=
+  map (fun _ => stuck_res (EUseAfterEmit, i)) l.
 
 (* how a parse that stopped goes on (the list holds no Reset) *)
 Definition finish (s : stop) (t : tplan) (j : nat) (rest : list call) : list res :=
   match s with
   | SBad e => map (fun _ => stuck_res (e, j)) rest          (* the first misuse, from every later call *)
   | SEnd => match rest with
-            | CPlan :: r => emit_res t :: done_results None (S j) r
+            | CPlan :: r => emit_res t :: done_results (S j) r
             | _ => []
             end
   | _ => []
@@ -255,7 +251,8 @@ Definition is_uae (r : rclass) : bool :=
 
 Record mon := { m_cur : option error; m_emitted : bool }.
 
-(* one call; None = the property is violated here *)
+(* one call; None = the property is violated here.  There is no exemption for use after emit: once an
+   error is in force EVERY call but Reset returns exactly that error value, and no tree. *)
 Definition mon_step (m : mon) (c : call) (r : res) : option mon :=
   match r_ret r with
   | RPanic => None                                                          (* never panics *)
@@ -265,29 +262,25 @@ Definition mon_step (m : mon) (c : call) (r : res) : option mon :=
       (* Reset reports its own failure, and that is the error in force from now on *)
       if rclass_eqb ret (of_err (r_after r)) && is_none (r_plan r)
       then Some {| m_cur := r_after r; m_emitted := false |} else None
-    | CPlan =>
-      if m_emitted m then
-        (* use after emit: an error of that class, no tree *)
-        if is_uae ret && is_none (r_plan r) && oerror_eqb (r_after r) (m_cur m) then Some m else None
-      else match m_cur m with
-           | Some e => (* the first misuse, again; no tree *)
-                       if rclass_eqb ret (RErr e) && is_none (r_plan r) && oerror_eqb (r_after r) (Some e)
-                       then Some m else None
-           | None => (* no misuse so far: a tree, no error *)
-                     if rclass_eqb ret ROk && negb (is_none (r_plan r)) && is_none (r_after r)
-                     then Some {| m_cur := None; m_emitted := true |} else None
-           end
     | _ =>
-      if m_emitted m then
-        if is_uae ret && is_none (r_plan r) && rclass_eqb ret (of_err (r_after r))
-        then Some {| m_cur := r_after r; m_emitted := true |} else None
-      else match m_cur m with
-           | Some e => if rclass_eqb ret (RErr e) && is_none (r_plan r) && oerror_eqb (r_after r) (Some e)
-                       then Some m else None
-           | None => (* either fine, or this call is the first misuse and its error is in force from now on *)
-                     if rclass_eqb ret (of_err (r_after r)) && is_none (r_plan r)
-                     then Some {| m_cur := r_after r; m_emitted := false |} else None
-           end
+      match m_cur m with
+      | Some e => (* the first misuse, again; no tree *)
+                  if rclass_eqb ret (RErr e) && is_none (r_plan r) && oerror_eqb (r_after r) (Some e)
+                  then Some m else None
+      | None =>
+        if m_emitted m then
+          (* the first call after the plan was emitted is a misuse: a use-after-emit error, in force from now on *)
+          if is_uae ret && is_none (r_plan r) && rclass_eqb ret (of_err (r_after r))
+          then Some {| m_cur := r_after r; m_emitted := true |} else None
+        else match c with
+             | CPlan => (* no misuse so far: a tree, no error *)
+                        if rclass_eqb ret ROk && negb (is_none (r_plan r)) && is_none (r_after r)
+                        then Some {| m_cur := None; m_emitted := true |} else None
+             | _ => (* either fine, or this call is the first misuse and its error is in force from now on *)
+                    if rclass_eqb ret (of_err (r_after r)) && is_none (r_plan r)
+                    then Some {| m_cur := r_after r; m_emitted := false |} else None
+             end
+      end
     end
   end.
 
